@@ -11,6 +11,7 @@ REGISTRY = {
     "C10": "harness.c10_jitter",
     "C12": "harness.c12_router",
     "C13": "harness.c13_channel",
+    "C14": "harness.c14_jsep",
     "C15": "harness.c15_rate",
     "C16": "harness.c16_codecs",
     "C17": "harness.c17_serial",
